@@ -3,6 +3,7 @@ package msgpack
 import (
 	"bytes"
 	"math"
+	"unicode/utf8"
 
 	"github.com/vmihailenco/msgpack/v5"
 	msgpackCodes "github.com/vmihailenco/msgpack/v5/msgpcode"
@@ -123,7 +124,7 @@ func unmarshalPrimitive(dec *msgpack.Decoder, ty cty.Type, path cty.Path) (cty.V
 		}
 	case cty.String:
 		rv, err := dec.DecodeString()
-		if err != nil {
+		if err != nil || !utf8.ValidString(rv) {
 			return cty.DynamicVal, path.NewErrorf("string is required")
 		}
 		return cty.StringVal(rv), nil
